@@ -80,6 +80,13 @@ theorem comp_lines (sem : Sem V) (lit : Nat → V) (hlit : ∀ n, sem.toAddr (li
     · exact ih hnc _ _ _ _ x hx
     · right; simp [simple, isExcluded, isDirect, lastIsLine, hlit]
     · left; rfl
+  | inl body ih =>
+    intro hnc base cl bl rl x hx
+    simp only [comp, List.mem_append, List.mem_cons, List.mem_nil_iff, or_false, List.mem_singleton] at hx
+    rcases hx with (rfl | hx) | rfl
+    · left; rfl
+    · exact ih hnc _ _ _ _ x hx
+    · left; rfl
   | loop body ih =>
     intro hnc base cl bl rl x hx
     simp only [comp, List.mem_append, List.mem_cons, List.mem_nil_iff, or_false, List.mem_singleton] at hx
